@@ -104,3 +104,92 @@ func TestC10(t *testing.T) {
 }
 
 func init() { registerReplay("C10", "epochs", CheckC10) }
+
+/* C10 (stepwise): the quota is read where it is final - between the executor's preparation phase (apportionment, stolen
+   babies, delta coding) and the reproduction of the species - instead of from the old species objects after the turnover;
+   the champion of every species whose quota exceeds five must have an unmodified copy among the babies that the species
+   produce. Uses the tag-guarded phase hooks of the sequential executor, as C09 does. */
+func CheckC10Stepwise(sc Scenario, rec *Rec) error {
+	opts := sc.Opts.Build()
+	pop, err := buildPopulation(sc, opts)
+	if err == errSkipScenario {
+		rec.Class("skipped: constructor outside the domain (gene-less random genome / failing turnover before the checkpoint)")
+		return nil
+	}
+	if err != nil {
+		return err
+	}
+	ctx := opts.NeatContext()
+	exec := &genetics.SequentialPopulationEpochExecutor{}
+	assign := func(e int) {
+		n := len(pop.Organisms)
+		for i, o := range pop.Organisms {
+			o.Fitness = fitnessOf(sc.Fit, e, i, n, o.Genotype)
+		}
+	}
+	for e := 0; e+1 < sc.Epochs; e++ {
+		assign(e)
+		if err := exec.NextEpoch(ctx, e, pop); err != nil {
+			rec.Class("history ended by a failing turnover (outside this property, see C02)")
+			return nil
+		}
+	}
+	gen := sc.Epochs - 1
+	assign(gen)
+	tr := &championTracker{}
+	tr.snapshot(pop)
+	if err := exec.VerifPrepare(ctx, gen, pop); err != nil {
+		rec.Class("history ended by a failing turnover (outside this property, see C02)")
+		return nil
+	}
+	quota := map[*genetics.Species]int{}
+	for _, sp := range pop.Species {
+		quota[sp] = sp.ExpectedOffspring
+	}
+	sorted := exec.VerifSortedSpecies()
+	var babies []GenomeSpec
+	for _, sp := range pop.Species {
+		bs, err := sp.VerifReproduce(ctx, gen, pop, sorted)
+		if err != nil {
+			rec.Class("history ended by a failing turnover (outside this property, see C02)")
+			return nil
+		}
+		for _, b := range bs {
+			babies = append(babies, Snapshot(b.Genotype))
+		}
+	}
+	for _, sp := range tr.order {
+		q, alive := quota[sp]
+		if !alive || q <= 5 {
+			continue
+		}
+		info := tr.champs[sp]
+		found := false
+		for _, s := range babies {
+			if len(s.Genes) == len(info.snap.Genes) && len(s.Nodes) == len(info.snap.Nodes) && DiffSpec(info.snap, s) == "" {
+				found = true
+				break
+			}
+		}
+		if !found {
+			return fmt.Errorf("generation %d: species %d entered reproduction with a quota of %d, but none of the %d babies is an unmodified copy of its champion (fitness %v, %d genes of which %d disabled)",
+				gen, sp.Id, q, len(babies), info.fitness, len(info.snap.Genes), info.disabled)
+		}
+		rec.Class("species with quota > 5")
+		if q == 6 {
+			rec.Class("quota exactly 6")
+		}
+		if q != sp.ExpectedOffspring {
+			rec.Class("quota changed by the reproduction itself")
+		}
+		rec.NonTrivial(hashOf(gen, sp.Id, q, len(info.snap.Genes), info.disabled))
+	}
+	return nil
+}
+
+func TestC10Stepwise(t *testing.T) {
+	runProp(t, "C10", "stepwise", 300, 6000, genScenario(ScenarioCfg{MaxEpochs: pick(30, 60), FitnessKinds: []string{"distinct", "distinct", "stagnating"},
+		Parallel: 0, MinPop: 6, MaxPop: pick(40, 100), NoSwitch: true}), CheckC10Stepwise)
+}
+
+func init() { registerReplay("C10", "stepwise", CheckC10Stepwise) }
